@@ -38,6 +38,12 @@ pub fn generic(tier: Tier, prop: &str, props: &[u8]) -> i32 {
     let st = run_units(&run, &leaves, true, true, |bytes, loc: &mut Local| {
         field_check(bytes, props, "fields", loc);
     });
+    if prop == "C08" {
+        callsign_pairs(&run, tier);
+    }
+    if prop == "C04" || prop == "C09" || prop == "C06" {
+        // nothing extra
+    }
     sample_cases(&run, &leaves);
     let cov = e1_coverage(
         &run,
@@ -144,4 +150,52 @@ pub fn replay(path: &str) -> i32 {
         println!("(non-frame input: re-run the owning check to replay) input={input}");
     }
     0
+}
+
+/// C08: every pair of character positions x 64 x 64 codes, in both carriers (others 'A' / space).
+fn callsign_pairs(run: &Run, tier: Tier) {
+    use rayon::prelude::*;
+    let carriers: Vec<(u64, u64)> = vec![(17, 4), (18, 1), (20, 0x20), (21, 0x20)];
+    let jobs: Vec<(usize, u16, u16, u64)> = (0..carriers.len())
+        .flat_map(|c| (0..8u16).flat_map(move |i| ((i + 1)..8u16).flat_map(move |j| [1u64, 32].into_iter().map(move |fill| (c, i, j, fill)))))
+        .collect();
+    let locs: Vec<Local> = jobs
+        .par_iter()
+        .map(|(c, i, j, fill)| {
+            let mut loc = Local::default();
+            let (df, sel) = carriers[*c];
+            if !tier.thorough() && *fill == 32 && (df == 18 || df == 20) {
+                return loc;
+            }
+            let mut b = vec![0u8; 14];
+            crate::bits::set_bits(&mut b, 1, 5, df);
+            if df < 20 {
+                crate::bits::set_bits(&mut b, 6, 3, 5);
+                crate::bits::set_bits(&mut b, 9, 24, 0x4840d6);
+                crate::bits::set_bits(&mut b, 33, 5, sel);
+            } else {
+                crate::bits::set_bits(&mut b, 33, 8, sel);
+            }
+            for k in 0..8u16 {
+                crate::bits::set_bits(&mut b, (41 + 6 * k) as usize, 6, *fill);
+            }
+            for x in 0..64u64 {
+                for y in 0..64u64 {
+                    crate::bits::set_bits(&mut b, (41 + 6 * i) as usize, 6, x);
+                    crate::bits::set_bits(&mut b, (41 + 6 * j) as usize, 6, y);
+                    field_check(&b, &[8], "fields", &mut loc);
+                }
+            }
+            loc
+        })
+        .collect();
+    for loc in locs {
+        run.add("extra_cases", loc.counts.get("decodes").copied().unwrap_or(0));
+        run.add("nontrivial_extra", loc.counts.get("accepted").copied().unwrap_or(0));
+        run.add("callsign_pair_cases", loc.counts.get("decodes").copied().unwrap_or(0));
+        run.merge_outcomes(&loc.outcomes);
+        for v in loc.viols {
+            run.violation(v);
+        }
+    }
 }
